@@ -142,15 +142,15 @@ func init() {
 		ID: "C01",
 		Jobs: func(tier string) []*Job {
 			if tier == "thorough" {
-				return append(lookupJobs("C01Lookup", nHandSets+187, 4, 8), lookupJobs("C01Agree", nHandSets+187, 3, 6)...)
+				return append(lookupJobs("C01Lookup", nHandSets+107, 4, 7), lookupJobs("C01Agree", nHandSets+107, 3, 5)...)
 			}
 			return append(lookupJobs("C01Lookup", nHandSets+47, 3, 7), lookupJobs("C01Agree", nHandSets+47, 2, 5)...)
 		},
 		Bounds: func(tier string) string {
 			if tier == "thorough" {
-				return fmt.Sprint(nHandSets+187) + " corpus route sets x every Host of 0..4 bytes x every path of 1..8 bytes (full byte alphabet, no empty segment), method GET; entry-point agreement (ServeHTTP, Lookup, Reverse, Iter.Reverse, Txn read/write Lookup+Reverse) on the same sets with Host 0..3, path 1..6"
+				return fmt.Sprint(nHandSets+107) + " corpus route sets x every Host of 0..4 bytes x every path of 1..7 bytes (full byte alphabet, no empty segment), method GET, each answer re-checked three times on recycled contexts; entry-point agreement (ServeHTTP after three priming requests, Lookup, Reverse, Iter.Reverse, Txn read/write Lookup+Reverse) on the same sets with Host 0..3, path 1..5"
 			}
-			return fmt.Sprint(nHandSets+47) + " corpus route sets x every Host of 0..3 bytes x every path of 1..7 bytes (full byte alphabet, no empty segment), method GET; entry-point agreement (ServeHTTP, Lookup, Reverse, Iter.Reverse, Txn read/write Lookup+Reverse) on the same sets with Host 0..2, path 1..5"
+			return fmt.Sprint(nHandSets+47) + " corpus route sets x every Host of 0..3 bytes x every path of 1..7 bytes (full byte alphabet, no empty segment), method GET, each answer re-checked three times on recycled contexts; entry-point agreement (ServeHTTP after three priming requests, Lookup, Reverse, Iter.Reverse, Txn read/write Lookup+Reverse) on the same sets with Host 0..2, path 1..5"
 		},
 		RequiredCovers: []string{"direct match", "no direct match", "matched via hostname", "one backtrack", "two backtracks", "infix catch-all matched", "lookup matched", "lookup tsr", "primed with an ignored trailing-slash match"},
 	}
@@ -165,7 +165,7 @@ func init() {
 			dlp, dlq := 4, 1
 			isets, ilp := nHandSets+13, 5
 			if tier == "thorough" {
-				js = lookupJobs("C08Tsr", nHandSets+187, 4, 8)
+				js = lookupJobs("C08Tsr", nHandSets+107, 4, 7)
 				dsets = []int{0, 6, 7, 8, 9, 13, 15, 17, 18, nHandSets + 3, nHandSets + 6, nHandSets + 8}
 				dlp, dlq = 5, 2
 				isets, ilp = nHandSets+43, 6
@@ -214,7 +214,7 @@ func init() {
 		},
 		Bounds: func(tier string) string {
 			if tier == "thorough" {
-				return "C08(a-c): " + fmt.Sprint(nHandSets+187) + " corpus route sets x every Host of 0..4 bytes x every path of 2..8 bytes (full byte alphabet, no empty segment), method GET; (d,e): 12 sets registered under GET/POST/CONNECT x 6 trailing-slash configurations (all ignore, all redirect, none, mixed per route, router-wide redirect with per-route ignore, router-wide ignore with per-route redirect) x every path of 2..5 bytes x every printable raw query of 0..2 bytes, Location resolved by an RFC 3986 reference resolver; (f): 63 sets x 9 extra routes x every path of 2..6 bytes (Host 0 and 2 bytes)"
+				return "C08(a-c): " + fmt.Sprint(nHandSets+107) + " corpus route sets x every Host of 0..4 bytes x every path of 2..7 bytes (full byte alphabet, no empty segment), method GET; (d,e): 12 sets registered under GET/POST/CONNECT x 6 trailing-slash configurations (all ignore, all redirect, none, mixed per route, router-wide redirect with per-route ignore, router-wide ignore with per-route redirect) x every path of 2..5 bytes x every printable raw query of 0..2 bytes, Location resolved by an RFC 3986 reference resolver; (f): 63 sets x 9 extra routes x every path of 2..6 bytes (Host 0 and 2 bytes)"
 			}
 			return "C08(a-c): " + fmt.Sprint(nHandSets+47) + " corpus route sets x every Host of 0..3 bytes x every path of 2..7 bytes (full byte alphabet, no empty segment), method GET; (d,e): 5 sets registered under GET/POST/CONNECT x 6 trailing-slash configurations (incl. router-wide ignore with per-route redirect) x every path of 2..3 bytes (2..4 without redirect, and on one set with it) x every printable raw query of 0..1 bytes, Location resolved by an RFC 3986 reference resolver, plus percent-encoded requests (RawPath set, every valid raw path of 5 bytes and, on two sets, 7 bytes); (f): 33 sets x 9 extra routes x every path of 2..5 bytes (Host 0 and 2 bytes)"
 		},
@@ -228,7 +228,7 @@ func init() {
 		Jobs: func(tier string) []*Job {
 			js := lookupJobs("C16Alloc", nHandSets+47, 3, 6)
 			if tier == "thorough" {
-				js = lookupJobs("C16Alloc", nHandSets+187, 4, 8)
+				js = lookupJobs("C16Alloc", nHandSets+107, 4, 7)
 			}
 			for _, s := range []int{1, 7, 13, 18} {
 				js = append(js, &Job{Harness: "C16Alloc", Params: map[string]int{"set": s, "lh": 0, "lp": 6, "raw": 1}})
@@ -243,7 +243,7 @@ func init() {
 		},
 		Bounds: func(tier string) string {
 			if tier == "thorough" {
-				return fmt.Sprint(nHandSets+187) + " corpus route sets (every route ignoring trailing slashes) x every Host of 0..4 bytes x every path of 1..8 bytes; plus percent-encoded requests (4 sets, 6 bytes) and 4 sets served through a writer offering FlushError/Flush/ReadFrom (paths of 4 bytes); each round = interleaved concrete requests of other shapes, then the request; warm-up = one full round"
+				return fmt.Sprint(nHandSets+107) + " corpus route sets (every route ignoring trailing slashes) x every Host of 0..4 bytes x every path of 1..7 bytes; plus percent-encoded requests (4 sets, 6 bytes) and 4 sets served through a writer offering FlushError/Flush/ReadFrom (paths of 4 bytes); each round = interleaved concrete requests of other shapes, then the request; warm-up = one full round"
 			}
 			return fmt.Sprint(nHandSets+47) + " corpus route sets (every route ignoring trailing slashes) x every Host of 0..3 bytes x every path of 1..6 bytes; plus percent-encoded requests (4 sets, 6 bytes), the deep-alternatives set with paths of 7..8 bytes, and 4 sets served through a writer offering FlushError/Flush/ReadFrom (paths of 4 bytes); each round = interleaved concrete requests of other shapes, then the request; warm-up = one full round"
 		},
@@ -259,7 +259,7 @@ func init() {
 			var js []*Job
 			nsets, maxLh, maxLp := nHandSets+47, 5, 3
 			if tier == "thorough" {
-				nsets, maxLh, maxLp = nHandSets+187, 7, 4
+				nsets, maxLh, maxLp = nHandSets+87, 6, 3
 			}
 			for s := 0; s < nsets; s++ {
 				for lh := 0; lh <= maxLh; lh++ {
@@ -275,7 +275,7 @@ func init() {
 		},
 		Bounds: func(tier string) string {
 			if tier == "thorough" {
-				return fmt.Sprint(nHandSets+187) + " corpus route sets (hostname and path-only) x every Host header of 0..7 bytes (ports, trailing dot, extra labels/characters, brackets) x every path of 1..4 bytes, each after three rounds of look-ups of every hostname route's own substituted request on the same pooled contexts; Lookup, Reverse, Txn.Lookup and Txn.Reverse"
+				return fmt.Sprint(nHandSets+87) + " corpus route sets (hostname and path-only) x every Host header of 0..6 bytes (ports, trailing dot, extra labels/characters, brackets) x every path of 1..3 bytes, each after three rounds of look-ups of every hostname route's own substituted request on the same pooled contexts; Lookup, Reverse, Txn.Lookup and Txn.Reverse"
 			}
 			return fmt.Sprint(nHandSets+47) + " corpus route sets (hostname and path-only) x every Host header of 0..5 bytes (ports, trailing dot, extra labels/characters, brackets) x every path of 1..3 bytes, each after three rounds of look-ups of every hostname route's own substituted request on the same pooled contexts; Lookup, Reverse, Txn.Lookup and Txn.Reverse; and the same routers after every hostname was extended by a label, registered and deleted again (Host 1..3, path 1..2)"
 		},
@@ -296,7 +296,7 @@ func c02Jobs(tier string) []*Job {
 	}
 	starts := []int{-1, 0, 6, 11, 16, 17, 19}
 	if tier == "thorough" {
-		starts = []int{-1, 0, 1, 2, 4, 6, 9, 10, 11, 12, 14, 16, 17, 18, 19, 20, nHandSets, nHandSets + 1}
+		starts = []int{-1, 0, 1, 6, 10, 11, 16, 17, 19, 20, nHandSets}
 	}
 	for _, s := range starts {
 		if tier == "thorough" && s == 16 {
@@ -304,12 +304,16 @@ func c02Jobs(tier string) []*Job {
 			add(s, 2, 2, 0, 4)
 			add(s, 1, 2, 3, 18)
 		} else if tier == "thorough" {
-			add(s, 2, 4, 0, 18)
-			add(s, 3, 2, 0, 6)
-			for n := 1; n <= 5; n++ {
+			add(s, 2, 2, 0, 12)
+			if s <= 0 {
+				add(s, 3, 2, 0, 4)
+			}
+			for n := 1; n <= 4; n++ {
 				add(s, 1, 2, n, 18)
 			}
-			add(s, 2, 2, 3, 8)
+			if s <= 1 {
+				add(s, 2, 2, 3, 6)
+			}
 		} else if s == 16 {
 			// 60-sibling fan-out: one write only (observations are quadratic in the number of routes)
 			add(s, 1, 2, 0, 12)
@@ -351,7 +355,7 @@ func init() {
 		Jobs: c02Jobs,
 		Bounds: func(tier string) string {
 			if tier == "thorough" {
-				return "18 start sets (empty, hand and generated corpus sets incl. hostnames and the 60-sibling fan-out) x histories of k<=3 writes (Handle, HandleRoute, Update, UpdateRoute, Delete, Truncate(all), Truncate(method)) issued directly or in a committed/aborted transaction, methods {GET,FOO,POST,\"\"}, patterns from an 18-entry pool (and two 4-entry pools: hostnames that are label-wise prefixes of each other, from the empty router; a route on an existing branching node plus routes below it, from the siblings-3 set); plus a first write with a symbolic pattern of 1..5 arbitrary bytes; every reader checked after every step"
+				return "11 start sets (empty, hand and generated corpus sets incl. hostnames and the 60-sibling fan-out) x histories of k<=2 writes (k=3 from two of the sets; Handle, HandleRoute, Update, UpdateRoute, Delete, Truncate(all), Truncate(method)) issued directly or in a committed/aborted transaction, methods {GET,FOO}, patterns from a 12-entry pool (4 for k=3) (and two 4-entry pools: hostnames that are label-wise prefixes of each other, from the empty router; a route on an existing branching node plus routes below it, from the siblings-3 set); plus a first write with a symbolic pattern of 1..4 arbitrary bytes; every reader checked after every step"
 			}
 			return "7 start sets x histories of k<=2 writes (7 kinds) direct / committed txn / aborted txn, with and without an iterator on the open transaction between the steps, methods {GET,FOO}, 6..8-entry pattern pool (12 for k=1), and two 4-entry pools (hostnames that are label-wise prefixes of each other, from the empty router; a route on an existing branching node plus routes below it, from the siblings-3 set); plus a first write with a symbolic pattern of 1..4 arbitrary bytes (k=1; 1..3 on four of the sets) and 2 bytes (k=2); every reader (Has, Route, Len, Reverse, Iter.All/Methods/Prefix per method and over all methods/Routes/Reverse) checked after every step, on the router, on the open transaction and on a snapshot of it"
 		},
@@ -400,7 +404,7 @@ func init() {
 		Jobs: func(tier string) []*Job {
 			nsets, maxLh, maxLp := nHandSets+23, 2, 5
 			if tier == "thorough" {
-				nsets, maxLh, maxLp = nHandSets+103, 3, 7
+				nsets, maxLh, maxLp = nHandSets+63, 3, 6
 			}
 			var js []*Job
 			for s := 0; s < nsets; s++ {
@@ -434,7 +438,7 @@ func init() {
 		},
 		Bounds: func(tier string) string {
 			if tier == "thorough" {
-				return fmt.Sprint(nHandSets+103) + " corpus route sets (routes spread over GET/POST/FOO/OPTIONS; per route: every third ignores trailing slashes; on three sets with paths of 2..3 bytes every third route redirects instead and a redirect-scope middleware observes the redirect handler's context) x the 4 combinations of method-not-allowed and auto-OPTIONS x request method in {GET,POST,FOO,OPTIONS,DELETE,CONNECT} x every Host of 0..3 bytes x every path of 1..7 bytes and the target '*'; on three sets also with the GET routes registered under CONNECT (a CONNECT route behind an ignored trailing slash may or may not be listed: the repository's tests list it, a CONNECT request never takes that action); percent-encoded requests on two sets"
+				return fmt.Sprint(nHandSets+63) + " corpus route sets (routes spread over GET/POST/FOO/OPTIONS; per route: every third ignores trailing slashes; on three sets with paths of 2..3 bytes every third route redirects instead and a redirect-scope middleware observes the redirect handler's context) x the 4 combinations of method-not-allowed and auto-OPTIONS x request method in {GET,POST,FOO,OPTIONS,DELETE,CONNECT} x every Host of 0..3 bytes x every path of 1..6 bytes and the target '*'; on three sets also with the GET routes registered under CONNECT (a CONNECT route behind an ignored trailing slash may or may not be listed: the repository's tests list it, a CONNECT request never takes that action); percent-encoded requests on two sets"
 			}
 			return fmt.Sprint(nHandSets+23-1) + " corpus route sets (routes spread over GET/POST/FOO/OPTIONS; per route: every third ignores trailing slashes; on three sets with paths of 2..3 bytes every third route redirects instead and a redirect-scope middleware observes the redirect handler's context) x the 4 combinations of method-not-allowed and auto-OPTIONS x request method in {GET,POST,FOO,OPTIONS,DELETE,CONNECT} x every Host of 0..2 bytes x every path of 1..5 bytes and the target '*'; on three sets also with the GET routes registered under CONNECT (a CONNECT route behind an ignored trailing slash may or may not be listed: the repository's tests list it, a CONNECT request never takes that action); percent-encoded requests on two sets"
 		},
@@ -509,15 +513,15 @@ func init() {
 			var js []*Job
 			sets := []int{-1, 0, 6, 11, 17}
 			if tier == "thorough" {
-				sets = []int{-1, 0, 2, 6, 10, 11, 14, 17}
+				sets = []int{-1, 0, 2, 6, 11, 17}
 			}
 			for _, s := range sets {
 				js = append(js, &Job{Harness: "C04Txn", Params: map[string]int{"set": s, "k": 1, "pool": 12, "iter": 1}})
 				if tier == "thorough" {
-					js = append(js, &Job{Harness: "C04Txn", Params: map[string]int{"set": s, "k": 2, "pool": 6, "iter": 1}})
-					js = append(js, &Job{Harness: "C04Txn", Params: map[string]int{"set": s, "k": 2, "pool": 8, "iter": 0}})
-					if s <= 0 || s == 17 {
-						js = append(js, &Job{Harness: "C04Txn", Params: map[string]int{"set": s, "k": 3, "pool": 3, "iter": 0}})
+					js = append(js, &Job{Harness: "C04Txn", Params: map[string]int{"set": s, "k": 2, "pool": 4, "iter": 1}})
+					js = append(js, &Job{Harness: "C04Txn", Params: map[string]int{"set": s, "k": 2, "pool": 6, "iter": 0}})
+					if s <= 0 {
+						js = append(js, &Job{Harness: "C04Txn", Params: map[string]int{"set": s, "k": 3, "pool": 2, "iter": 0}})
 					}
 				} else {
 					if s == 0 {
@@ -547,7 +551,7 @@ func init() {
 		},
 		Bounds: func(tier string) string {
 			if tier == "thorough" {
-				return "8 start sets x transactions of k<=3 writes (7 kinds, methods {GET,FOO}, pattern pool 12/6..8/3 for k=1/2/3, k=3 on three of the sets; on the siblings-3 set also k<=3 over a pool holding a route on an existing branching node and routes below it) x 5 endings (Commit, Abort, Updates returning nil, Updates returning an error after j ops, Updates panicking after j ops; j symbolic in 0..k); on two start sets a snapshot of the write transaction is written to (must refuse) and settled by Commit / Abort (must neither publish nor release the writer lock); txn view, router view and a fresh read-only txn compared with the model after every step; settled-txn, double Commit/Abort, new-writer and read-only-writes obligations on every path"
+				return "6 start sets x transactions of k<=3 writes (7 kinds, methods {GET,FOO}, pattern pool 12/4..6/2 for k=1/2/3, k=3 on two of the sets; on the siblings-3 set also k<=3 over a pool holding a route on an existing branching node and routes below it) x 5 endings (Commit, Abort, Updates returning nil, Updates returning an error after j ops, Updates panicking after j ops; j symbolic in 0..k); on two start sets a snapshot of the write transaction is written to (must refuse) and settled by Commit / Abort (must neither publish nor release the writer lock); txn view, router view and a fresh read-only txn compared with the model after every step; settled-txn, double Commit/Abort, new-writer and read-only-writes obligations on every path"
 			}
 			return "4 start sets x transactions of k<=2 writes (7 kinds, methods {GET,FOO}, pattern pool 12 for k=1, 4..8 for k=2 on three start sets, with and without an iterator on the open transaction between steps; on the siblings-3 set also k=2 over a pool holding a route on an existing branching node and routes below it) x 5 endings (Commit, Abort, Updates returning nil, Updates returning an error after j ops, Updates panicking after j ops; j symbolic in 0..k); on two start sets a snapshot of the write transaction is written to (must refuse) and settled by Commit / Abort (must neither publish nor release the writer lock); txn view, router view and a fresh read-only txn compared with the model after every step; settled-txn, double Commit/Abort, new-writer and read-only-writes obligations on every path"
 		},
